@@ -57,7 +57,6 @@ func (r *response) Reply(v EncoderDecoder) (int, error) {
 		r.Errorf(r.ctx, "unable to marshal packet; %v", err)
 		return 0, err
 	}
-	r.header = *header
 	p := NewPacket(
 		SetPacketHeader(header),
 		SetPacketBody(b),
@@ -70,7 +69,14 @@ func (r *response) Reply(v EncoderDecoder) (int, error) {
 			}
 		}
 	}
-	return r.Write(p)
+	n, err := r.Write(p)
+	if err != nil {
+		// nothing was sent.  the sequence number must not advance, a handler that falls back to another
+		// reply would otherwise send it with request seq+2
+		return n, err
+	}
+	r.header = *header
+	return n, nil
 }
 
 // Write will write the packet to the underlying net.Conn.  If you are expecting another packet
